@@ -120,8 +120,15 @@ def _draw_layout(rng, *, max_features=12, min_samples=14, max_samples=30, allow_
 
 
 def draw_chunks(rng, tiny=False):
-    mode = rng.choice(["single", "sample", "feature", "both", "allfeat"] + (["elem"] if tiny else []))
-    return {"mode": mode, "n": rng.randint(2, 4)}
+    mode = rng.choice(["single", "sample", "feature", "both", "allfeat", "irregular", "all"] + (["elem"] if tiny else []))
+    ch = {"mode": mode, "n": rng.randint(2, 4)}
+    if mode == "irregular":
+        ch["iseed"] = rng.randrange(1, 10 ** 6)
+        ch["ifeat"] = rng.random() < 0.6
+    if rng.random() < 0.25:
+        # list items / Dataset variables with layouts of their own; "memory" = that item is not dask-backed at all
+        ch["items"] = [rng.choice(["memory", None, None, "single", "sample", "feature"]) for _ in range(3)]
+    return ch
 
 
 def same_structure(rng, d: dict, *, n_samples=None) -> dict:
